@@ -185,8 +185,8 @@ func cmpJSON(t *refssz.Type, lib, ref any, path string) string {
 		}
 		ls, ok := lib.([]any)
 		if !ok {
-			if lib == nil && len(rs) == 0 {
-				return fmt.Sprintf("%s: empty list rendered as null", path)
+			if lib == nil && len(rs) == 0 && t.Kind == refssz.KList {
+				return "" // a nil slice marshals as null; it round-trips to the empty list (noted in the evidence)
 			}
 			return fmt.Sprintf("%s: expected list, got %T", path, lib)
 		}
@@ -234,37 +234,59 @@ func cmpJSON(t *refssz.Type, lib, ref any, path string) string {
 // differential judges one arbitrary input x for (type, preset): the library decodes iff the
 // strict reference decoder does, and then both re-encode to x. `lenient` lists the relaxations.
 // cls is a label for messages/signatures ("fuzz", "truncation", "over-limit", "offset").
-func differential(c *Case, p *reg.Preset, t *refssz.Type, x []byte, cls, desc string) *report.Failure {
+func differential(c *Case, p *reg.Preset, t *refssz.Type, x []byte, cls, desc string) (*report.Failure, string) {
 	sigp := c.Type + "/decode-" + cls
 	rv, rerr := refssz.Deserialize(t, x)
 	o, lerr, pan := decodeLib(c, p, x)
 	if pan {
-		return report.Failf(c.Type+"/Deserialize/panic", "[%s] %s (%s): %v; input %s", c.Preset, cls, desc, lerr, short(x))
+		return fail(c.Type+"/Deserialize/panic", "[%s] %s (%s): %v; input %s", c.Preset, cls, desc, lerr, short(x))
 	}
 	if rerr == nil {
 		if lerr != nil {
-			return report.Failf(sigp+"/refuses-valid", "[%s] %s: valid encoding (%s) refused: %v; input %s", c.Preset, cls, desc, lerr, short(x))
+			return fail(sigp+"/refuses-valid", "[%s] %s: valid encoding (%s) refused: %v; input %s", c.Preset, cls, desc, lerr, short(x))
 		}
 		out, err, pan := encodeLib(o)
 		if pan || err != nil {
-			return report.Failf(c.Type+"/Serialize/error", "[%s] %s (%s): after decoding: %v (panic=%v); input %s", c.Preset, cls, desc, err, pan, short(x))
+			return fail(c.Type+"/Serialize/error", "[%s] %s (%s): after decoding: %v (panic=%v); input %s", c.Preset, cls, desc, err, pan, short(x))
 		}
 		if !bytes.Equal(out, x) {
-			return report.Failf(sigp+"/reencode-differs", "[%s] %s (%s): decoded a valid encoding but re-encodes differently: %s; input %s", c.Preset, cls, desc, refssz.DiffBytes(t, x, out), short(x))
+			return fail(sigp+"/reencode-differs", "[%s] %s (%s): decoded a valid encoding but re-encodes differently: %s; input %s", c.Preset, cls, desc, refssz.DiffBytes(t, x, out), short(x))
 		}
 		_ = rv
-		return nil
+		return nil, "both-accept"
 	}
 	if lerr != nil {
-		return nil // both refuse
+		return nil, "both-refuse"
 	}
-	// reference refuses, library accepts: tolerated only if the relaxed reference accepts too
-	if lenient != (refssz.Lenient{}) {
-		if _, e2 := refssz.DeserializeLenient(t, x, lenient); e2 == nil {
-			return nil
+	// reference refuses, library accepts: tolerated only under the documented leniencies
+	if why := lenientAccepts(t, x); why != "" {
+		return nil, why
+	}
+	return fail(sigp+"/accepts-malformed", "[%s] %s: %s — the reference decoder refuses (%v) but the library decodes it; input %s", c.Preset, cls, desc, rerr, short(x))
+}
+
+func fail(sig, format string, args ...any) (*report.Failure, string) {
+	return report.Failf(sig, format, args...), ""
+}
+
+// lenientAccepts reports (non-empty reason) whether x is acceptable under the documented
+// leniencies, all of which lie outside the three refusal classes of the property.
+func lenientAccepts(t *refssz.Type, x []byte) string {
+	why := ""
+	if t.IsFixed() && uint64(len(x)) > t.FixedSize() {
+		// L1: a fixed-size object decoded from a longer top-level scope: the surplus is not read
+		x = x[:t.FixedSize()]
+		why = "L1-trailing-bytes-after-fixed-size-top-level"
+		if _, err := refssz.Deserialize(t, x); err == nil {
+			return why
 		}
 	}
-	return report.Failf(sigp+"/accepts-malformed", "[%s] %s: %s — the reference decoder refuses (%v) but the library decodes it; input %s", c.Preset, cls, desc, rerr, short(x))
+	if lenient != (refssz.Lenient{}) {
+		if _, err := refssz.DeserializeLenient(t, x, lenient); err == nil {
+			return why + "+L-lenient-scalars"
+		}
+	}
+	return ""
 }
 
 // ---------------------------------------------------------------- run
@@ -278,10 +300,12 @@ type runInfo struct {
 	fixed     bool
 	jsonNamed bool
 	yamlOK    bool
+	verdict   string
+	lenient   map[string]int
 }
 
 func run(c *Case) (*report.Failure, *runInfo) {
-	info := &runInfo{nMut: map[string]int{}, refused: map[string]int{}}
+	info := &runInfo{nMut: map[string]int{}, refused: map[string]int{}, lenient: map[string]int{}}
 	p := reg.GetPreset(c.Preset)
 	bd, ok := bindings[c.Type]
 	if p == nil || !ok {
@@ -296,7 +320,9 @@ func run(c *Case) (*report.Failure, *runInfo) {
 	}
 	x := c.bytes()
 	if c.Mode == "bytes" {
-		return differential(c, p, t, x, "fuzz", c.Note), info
+		f, verdict := differential(c, p, t, x, "fuzz", c.Note)
+		info.verdict = verdict
+		return f, info
 	}
 	B := x
 	V, err := refssz.Deserialize(t, B)
@@ -402,8 +428,12 @@ func run(c *Case) (*report.Failure, *runInfo) {
 			} else if m.Class == "over-limit" {
 				return report.Failf("harness", "over-limit mutant accepted by the reference decoder: %s", m.Desc), info
 			}
-			if f := differential(c, p, t, m.B, m.Class, m.Desc); f != nil {
+			f, verdict := differential(c, p, t, m.B, m.Class, m.Desc)
+			if f != nil {
 				return f, info
+			}
+			if strings.HasPrefix(verdict, "L") {
+				info.lenient[verdict]++
 			}
 		}
 	}
@@ -616,8 +646,11 @@ func TestCheck(t *testing.T) {
 	record := func(c *Case, info *runInfo, p *reg.Preset) {
 		r.Eval(1)
 		if c.Mode != "value" {
-			r.Class("x:" + p.Family)
+			r.Class("x:" + p.Family + ":" + info.verdict)
 			return
+		}
+		for k, n := range info.lenient {
+			r.ClassN("derived:tolerated:"+k, int64(n))
 		}
 		r.Hit("seen:" + c.Type + "@" + p.Family)
 		if c.Shape != "at-limit" {
@@ -660,7 +693,11 @@ func TestCheck(t *testing.T) {
 	}
 
 	pair := 0
+	only := os.Getenv("VERIF_C04_ONLY") // development aid: substring filter on the type name
 	for ti, typ := range types {
+		if only != "" && !strings.Contains(typ, only) {
+			continue
+		}
 		for pi, pn := range reg.PresetNames {
 			idx := ti*len(reg.PresetNames) + pi
 			pair++
